@@ -229,6 +229,7 @@ func runC02(c *core.Ctx) {
 
 	c.Doc("C02.readers", "every TypeReader returns exactly the bytes it consumed, from a buffer of its own", 4)
 	ruleReadersReturnWhatTheyConsume(c, "C02.readers")
+	ruleEveryMemberRead(c, "C02.readers")
 
 	c.Doc("C02.opaque", "opaque values: written as signature + stored bytes; stored bytes are what the reader returned", 2)
 	ruleOpaque(c)
